@@ -269,6 +269,19 @@ PROPS['C11'] = {
         'NOT PROVED: that answers, order and output are functions of the clause shapes only is the whole-search statement C01 composed with the above; it is checked bounded by the metamorphic oracle',
     ],
 }
+PROPS['C23'] = {
+    'units': ['solutions'],
+    'functions': ['solutions.rs::solve', 'solutions.rs::solve_all'],
+    'oracles': {'*': 'c22_make_query'},
+    'not_covered': [
+        'PARTIAL.  PROVED (Verus, verbatim solve / solve_all over the node heap): the reporting discipline - whether the query was stopped is asked after each search step has returned, and the result of that step is looked at only afterwards and only if the flag was clear: '
+        'an answer, or the end of the answers, that was computed while the query was being stopped (count_rules returns 0 then) is never reported (#flag_read_after_search, #result_used_after_flag); solve() returns NO_MORE exactly on that path when the step returned None (C05 clause); '
+        'the timer armed by a call is cancelled on every path out and the search runs only after it was armed (C22 clauses): a timer of an earlier call cannot stop this one',
+        'NOT WITHIN REACH: everything that involves the timer thread and wall-clock time - that the flag is raised only when the limit was exceeded, that a search finishing well within the limit is not reported as timed out (cancel_timer races the timer thread), '
+        'data-race freedom of the flag itself (C24).  Kani has no threads, Verus no time.  That part of the statement is NOT decided; the stop flag is an oracle (`query_stopped()` may return anything) in the proof',
+        'the oracle c22_make_query (shared with C22) exercises solve() around a raised stop flag and an exhausted query; it has no timing cases',
+    ],
+}
 PROPS['C04'] = {
     'units': ['print', 'solver'],
     'functions': ['built_in_print.rs::format_for_print_pred', 'built_in_print.rs::next_solution_print'],
